@@ -218,6 +218,9 @@ def run_fs(desc):
         @util.hyp_settings(max(10, desc['n']), shrink=False)
         @given(pat, st.sampled_from(cfgs), st.integers(0, 4), st.sampled_from([0, 0, 8, 9, 10, 12]))
         def test(segs, cfg, api, variant):
+            judge(segs, cfg, api, variant)
+
+        def judge(segs, cfg, api, variant):
             segs = tuple(s for s in segs if s)
             if not segs:
                 return
@@ -309,6 +312,15 @@ def run_fs(desc):
             if any(A.has_wild(s) for s in segs if not isinstance(s, str)) or A.GS in segs:
                 out.nontrivial(('fs', text, tuple(sorted(cfg.items())), api))
         test()
+        # the hidden entries of the tree named outright (its hidden links `.l` and `d/.lk` included), after every kind of globstar
+        dot_l, dot_lk, dot_d, dot_a = A.lits('.l'), A.lits('.lk'), A.lits('.d'), A.lits('.a')
+        fixed = [(A.GS, dot_l), (A.GS, (A.lit('.'), A.STAR)), (A.GS, dot_lk), (A.GS, dot_l, A.lits('a')), (A.GSL, (A.lit('.'), A.lit('l'), A.STAR)), (dot_l,),
+                 (A.lits('d'), dot_lk), ((A.STAR,), dot_lk), (A.GS, dot_lk, (A.STAR,)), (A.GS, dot_d, (A.STAR,)), (A.GS, dot_a), (A.GS, dot_d), (A.GSL, dot_lk),
+                 (A.GS, (A.lit('.'), A.ANY)), (A.lits('d'), A.GS, (A.lit('.'), A.STAR))]
+        for fsegs in fixed:
+            for cfg in ({'globstar': True}, {'globstar': True, 'follow': True}, {'globstarlong': True}, {'globstar': True, 'matchbase': True}, {}):
+                for api in (0, 3, 4):
+                    judge(fsegs, cfg, api, 0)
 
         # WcMatch: hidden files/directories only with HIDDEN, whatever the file pattern
         for fpat in ('*', '*|.*', '!x', '?a|.?', '**/*', '.*|*'):
